@@ -329,3 +329,24 @@ func (w *verifRecorder) Write(b []byte) (int, error) {
 	w.bodyLen += len(b)
 	return len(b), nil
 }
+
+// ---- schema (de)serialisation: an injective opaque encoding ----
+
+var verifSchemas []*arrow.Schema
+
+func verifSerializeSchema(s *arrow.Schema) []byte {
+	for i, x := range verifSchemas {
+		if x == s {
+			return []byte{'S', byte('a' + i)}
+		}
+	}
+	verifSchemas = append(verifSchemas, s)
+	return []byte{'S', byte('a' + len(verifSchemas) - 1)}
+}
+
+func verifDeserializeSchema(data []byte) (*arrow.Schema, error) {
+	if len(data) != 2 || data[0] != 'S' || int(data[1]-'a') >= len(verifSchemas) {
+		return nil, errors.New("schema deserialization: invalid bytes")
+	}
+	return verifSchemas[int(data[1]-'a')], nil
+}
